@@ -165,10 +165,8 @@ impl Future for JoinNested {
             sfuture::block_on(PendFut { w: w2, slot: sb });
             self.b_done = true;
         }
-        if !self.a_done && *self.w.flags[self.sa].get() {
-            // the flag was set while this poll was asleep in the nested block_on
-            self.a_done = true;
-        }
+        // like join!: branch a is not polled a second time within this poll; if its wake arrived
+        // while the poll was asleep in the nested block_on, the executor must poll the task again
         if self.a_done {
             Poll::Ready(())
         } else {
